@@ -364,7 +364,16 @@ impl Sparse<f64> {
             rho_2 = rho_1;
             if itol == 1 { err = r.norm_2() / bnrm; }
             if itol == 2 { err = z.norm_2() / bnrm; }
-            if err <= tol { return Ok( iter ); }
+            if err <= tol {
+                // The recurrence residual says nothing about x once a step alpha * p underflowed or
+                // overflowed (or after a near breakdown): confirm with the true residual and carry on
+                // from it, as solve_bicgstab and solve_qmr do
+                r = b.clone() - self.multiply( x );
+                self.identity_preconditioner( &r, &mut z );
+                if itol == 1 { err = r.norm_2() / bnrm; }
+                if itol == 2 { err = z.norm_2() / bnrm; }
+                if err <= tol { return Ok( iter ); }
+            }
         }
         Err(err)
     }
@@ -488,7 +497,12 @@ impl Sparse<f64> {
             *x += p.clone() * alpha;
             r -= q.clone() * alpha;
             resid = r.norm_2() / normb;
-            if resid <= tol { return Ok( i ); }
+            if resid <= tol {
+                // confirm with the true residual and carry on from it (see solve_bicg)
+                r = b.clone() - self.multiply( x );
+                resid = r.norm_2() / normb;
+                if resid <= tol { return Ok( i ); }
+            }
             rho_1 = rho;
         }
         Err(resid)
